@@ -1000,6 +1000,59 @@ impl C20 {
     }
 }
 
+/// Breadth-first search over the distinct *concrete* states of the real `GroupingHashMap` (2 keys × 2
+/// values): a state is identified by its visible values plus its canonical `iter_all` (which shows every
+/// group's logged keys and the values they revert to). Every state is reached by a shortest history; every
+/// one-op extension of it becomes a `gm` case whose `iter_all`/rebuild is taken at the very end. This goes
+/// deeper (nesting and length) than the exhaustive length-bounded scope.
+fn bfs_cases(max_depth: usize, max_states: usize) -> Vec<String> {
+    let key_of = |h: &[GOp]| -> Option<Vec<i64>> {
+        caught(|| {
+            let mut m: GC<HashMap<usize, usize>> = Default::default();
+            let mut t = vec![];
+            for op in h {
+                g_step(&mut m, 2, *op, &mut t);
+            }
+            let mut k: Vec<i64> = (0..2).map(|i| m.get(&i).map(|v| *v as i64).unwrap_or(-7)).collect();
+            k.extend(canon_items(&m));
+            k
+        })
+        .ok()
+    };
+    let mut out = vec![];
+    let mut seen: HashSet<Vec<i64>> = HashSet::new();
+    let mut queue: std::collections::VecDeque<(Vec<GOp>, usize)> = Default::default();
+    seen.insert(key_of(&[]).unwrap_or_default());
+    queue.push_back((vec![], 0));
+    let mut expanded = 0;
+    while let Some((h, depth)) = queue.pop_front() {
+        if expanded >= max_states {
+            break;
+        }
+        expanded += 1;
+        for a in 0..10 {
+            let op = alpha_op(a);
+            if op == GOp::Begin && depth >= max_depth {
+                continue;
+            }
+            let mut h2 = h.clone();
+            h2.push(op);
+            out.push(format!("gm 2 {} {} {}", h2.len(), h2.len(), enc_gops(&h2)));
+            let d2 = match op {
+                GOp::Begin => depth + 1,
+                GOp::End => depth.saturating_sub(1),
+                _ => depth,
+            };
+            if let Some(k) = key_of(&h2) {
+                if seen.insert(k) {
+                    queue.push_back((h2, d2));
+                }
+            }
+        }
+    }
+    out
+}
+
 fn all_seqs(alphabet: usize, len: usize) -> Vec<Vec<usize>> {
     let mut out = vec![vec![]];
     for _ in 0..len {
@@ -1023,6 +1076,7 @@ impl Property for C20 {
     fn rule(&self) -> String {
         "gx/gy: every history over the 10-op alphabet (2 keys x 2 values x local/global, begin, end) of length = depth (quick 6 on HashMap backing and 5 on Vec backing; thorough 7 and 6), \
          every key read after every op, iter_all->FromIterator at depth/2 then the remaining ops on the rebuilt map, iter_all of the final state, compared by digest and bisected on mismatch; \
+         gm (bfs): breadth-first search over the distinct concrete states of the real map (visible values + canonical iter_all) for 2 keys x 2 values, nesting <= 3 (quick, first 1500 states) / <= 5 (thorough, first 40000 states), every one-op extension of every state's shortest history, iter_all + rebuild at the end; \
          gm: random histories, 1..12 keys, 2..4 values, length <= 400, nesting <= 10, unmatched end_group with probability, random split; \
          kx: every pattern over {0,1,2} of length <= 4 (quick) / <= 5 (thorough) against every text of length 8 / 12 (hence all shorter: streaming), by digest; km: random patterns (<= 8, periodic ones favoured) and texts (<= 48) over 1..3 letters; \
          in: every sequence of length <= 5 over {\"\", a, ab, b} (quick: <= 4), random sequences with repeats, multi-byte strings; constant hasher and RandomState; serde_json rebuild; \
@@ -1071,6 +1125,9 @@ impl Property for C20 {
         for split in 0..=ds {
             v.push(format!("gx {ds} {split} 0"));
         }
+        // --- breadth-first over distinct states, deeper than the length-bounded scope
+        let (bd, bs) = if ctx.thorough { (5usize, 40_000usize) } else { (3, 1_500) };
+        v.extend(bfs_cases(bd, bs));
         // --- random histories
         let n_gm = if ctx.thorough { 60_000 } else { 8_000 };
         let mut r = rng.fork();
